@@ -1093,3 +1093,32 @@ Proof.
   intros H Hal. destruct (sized_part_layout g fs Hal) as (A & B & C).
   destruct (sized_part_checked g fs H) as (D & E & _). auto.
 Qed.
+
+(* ------------------------------------------------------------------------------------------ *)
+(* the bound style of a generic declaration (the hundreds of the G component) does not reach the decision *)
+Lemma g_decode : forall k s : Z, 0 < k < 100 -> 0 <= s <= 2 ->
+  g_ok (k + 100 * s) = true /\ g_inst (k + 100 * s) = k.
+Proof.
+  intros k s Hk Hs. unfold g_ok, g_style, g_inst.
+  replace (k + 100 * s) with (k + s * 100) by ring.
+  rewrite Z.div_add by discriminate. rewrite Z.mod_add by discriminate.
+  rewrite Z.div_small by lia. rewrite Z.mod_small by lia.
+  split; [|reflexivity].
+  apply andb_true_iff; split; [apply andb_true_iff; split|].
+  - apply Z.leb_le. lia.
+  - apply Z.leb_le. lia.
+  - apply orb_true_iff. right. apply negb_true_iff. apply Z.eqb_neq. lia.
+Qed.
+
+Theorem bound_style_irrelevant :
+  forall (m f k s : Z) (rest : list Z),
+    0 < k < 100 -> 0 <= s <= 2 ->
+    run_c19 (m :: f :: (k + 100 * s) :: rest) = run_c19 (m :: f :: k :: rest).
+Proof.
+  intros m f k s rest Hk Hs.
+  destruct (g_decode k s Hk Hs) as [Ho Hi].
+  assert (H0 : 0 <= 0 <= 2) by lia.
+  destruct (g_decode k 0 Hk H0) as [Ho0 Hi0]. replace (k + 100 * 0) with k in * by ring.
+  cbn [run_c19]. rewrite Ho, Hi, Ho0, Hi0. reflexivity.
+Qed.
+
